@@ -168,6 +168,7 @@ func (w *c07World) lookup(name, id, ns string, periodic bool) (*c07View, map[str
 	v.AllPolicies = c07Strs(d["identity_policies"])
 	v.Orphan, _ = d["orphan"].(bool)
 	v.Period = time.Duration(c07Int(d["period"])) * time.Second
+	v.ExplicitMax = time.Duration(c07Int(d["explicit_max_ttl"])) * time.Second
 	v.TTL = time.Duration(c07Int(d["creation_ttl"])) * time.Second
 	v.Type, _ = d["type"].(string)
 	v.NumUses = int(c07Int(d["num_uses"]))
@@ -214,6 +215,7 @@ func c07AuthView(a *logical.Auth) *c07View {
 	v.AllPolicies = append(append([]string{}, a.Policies...), a.IdentityPolicies...)
 	v.Orphan = a.Orphan
 	v.Period = a.Period
+	v.ExplicitMax = a.ExplicitMaxTTL
 	v.TTL = a.TTL
 	v.Life, v.Span = a.TTL, a.TTL
 	v.NonExpiring = a.TTL == 0
@@ -226,7 +228,7 @@ func c07AuthView(a *logical.Auth) *c07View {
 // ---------------------------------------------------------------- parents
 
 type c07ParentSpec struct {
-	Kind     string        `json:"kind"` // root0 | rootchild | rootexp | svc | batch | uses | login | login-ent | ent
+	Kind     string        `json:"kind"` // root0 | rootchild | rootexp | rootx | svc | batch | uses | login | login-ent | ent
 	NS       string        `json:"ns"`
 	Policies []string      `json:"policies,omitempty"`
 	Default  bool          `json:"default"`
@@ -234,6 +236,9 @@ type c07ParentSpec struct {
 	NumUses  int           `json:"num_uses,omitempty"`
 	Alias    string        `json:"alias,omitempty"`
 	Ident    *c07IdentSpec `json:"identity,omitempty"` // kind ent
+	// kind rootx: a root token made by the initial root token with exactly these lifetime parameters (TTL, NumUses too)
+	Period      string `json:"period,omitempty"`
+	ExplicitMax string `json:"explicit_max_ttl,omitempty"`
 }
 
 // c07IdentSpec: the entity a parent of kind "ent" is bound to. The entity is made for the case (fresh alias),
@@ -336,6 +341,19 @@ func (w *c07World) makeParent(s c07ParentSpec) (*c07Parent, error) {
 		case "rootchild":
 		case "rootexp":
 			data["ttl"] = "8h"
+		case "rootx":
+			if s.TTL != "" {
+				data["ttl"] = s.TTL
+			}
+			if s.Period != "" {
+				data["period"] = s.Period
+			}
+			if s.ExplicitMax != "" {
+				data["explicit_max_ttl"] = s.ExplicitMax
+			}
+			if s.NumUses > 0 {
+				data["num_uses"] = s.NumUses
+			}
 		default:
 			data["policies"] = append([]string{}, s.Policies...)
 			data["ttl"] = "6h"
@@ -361,8 +379,13 @@ func (w *c07World) makeParent(s c07ParentSpec) (*c07Parent, error) {
 		return nil, fmt.Errorf("parent lookup failed")
 	}
 	p := &c07Parent{Kind: s.Kind, NS: s.NS, ID: id, TokenPolicies: c07Norm(lv.TokenPolicies), IdentityPolicies: c07Norm(c07Strs(d["identity_policies"])),
-		NumUses: lv.NumUses, Batch: lv.Type == "batch", EntityID: lv.EntityID, NonExpiring: lv.NonExpiring}
+		NumUses: lv.NumUses, Batch: lv.Type == "batch", EntityID: lv.EntityID, NonExpiring: lv.NonExpiring,
+		TTL: lv.TTL, Period: lv.Period, ExplicitMax: lv.ExplicitMax}
 	p.Root = c07Has(p.TokenPolicies, "root")
+	if s.Kind == "rootx" && (!p.Root || (p.Period > 0) != (c07Dur(s.Period) > 0) || (p.ExplicitMax > 0) != (c07Dur(s.ExplicitMax) > 0) || (p.NumUses > 0) != (s.NumUses > 0)) {
+		_, _ = v.Do(vReq{Op: logical.UpdateOperation, Path: "auth/token/revoke", Token: v.Root, NS: s.NS, Data: map[string]any{"token": id}})
+		return nil, fmt.Errorf("root parent not of the requested shape: lookup says policies %v ttl %s period %s explicit max %s uses %d", p.TokenPolicies, p.TTL, p.Period, p.ExplicitMax, p.NumUses)
+	}
 	if ident != nil {
 		// the reference takes the identity-derived policies from what the harness wrote, not from the server's report;
 		// a parent whose lookup disagrees with that is not used (counted as a failed setup)
@@ -525,6 +548,19 @@ func (w *c07World) run(r *kit.Result, id string, ps c07ParentSpec, q c07Req, ren
 		}
 	}
 	asks := c07Asks(c)
+	rootShape := ""
+	if parent.Root {
+		rootShape = c07RootShape(parent)
+		r.Count("root_parents:"+rootShape, 1)
+	}
+	noDefaultParent := !parent.Root && !parent.Batch && parent.NumUses == 0 && !c07Has(parent.TokenPolicies, "default")
+	namesDefault := c07Has(c07Norm(q.Policies), "default")
+	if noDefaultParent {
+		r.Count("parents_without_default", 1)
+		if namesDefault {
+			r.Count("parents_without_default_naming_default", 1)
+		}
+	}
 	// evidence for the namespace dimension: the caller's policy NAMES would grant sudo if they were (wrongly)
 	// resolved in the request namespace, while the caller's own policies do not
 	namesake := false
@@ -563,6 +599,14 @@ func (w *c07World) run(r *kit.Result, id string, ps c07ParentSpec, q c07Req, ren
 		}
 		for _, a := range asks {
 			r.Count("refused_unentitled_ask:"+a, 1)
+		}
+		for _, a := range asks {
+			switch {
+			case a == "non-expiring-root-from-expiring-root" && len(asks) == 1:
+				r.Count("expiring_root_parent_refused_non_expiring_root_child:"+rootShape, 1)
+			case a == "explicit-default-not-held-by-parent" && len(asks) == 1 && c.Update:
+				r.Count("explicit_default_refused_for_that_alone:"+q.Endpoint, 1)
+			}
 		}
 		if reqIdOnly {
 			r.Count("identity_only_policy_request_refused", 1)
@@ -739,7 +783,25 @@ func (w *c07World) run(r *kit.Result, id string, ps c07ParentSpec, q c07Req, ren
 		r.Count("root_child_of_root_parent", 1)
 		if pv.NonExpiring {
 			r.Count("non_expiring_root_child", 1)
+			r.Count("non_expiring_root_child_of_parent:"+rootShape, 1)
+		} else {
+			r.Count("expiring_root_child_of_parent:"+rootShape, 1)
 		}
+	}
+	if noDefaultParent && !c.CrossNS && !(q.Role != nil && (q.Role.hasAllowLists() || q.Role.hasDenyLists())) {
+		switch {
+		case c07Has(pols, "default") && c.Sudo:
+			r.Count("child_of_parent_without_default_carries_default_via_sudo", 1)
+		case c07Has(pols, "default"):
+			r.Count("child_of_parent_without_default_carries_default_without_sudo", 1)
+		case !c.Sudo && len(c07Norm(q.Policies)) == 0:
+			r.Count("inherit_from_parent_without_default_gave_no_default", 1)
+		case !c.Sudo:
+			r.Count("subset_of_parent_without_default_gave_no_default", 1)
+		}
+	}
+	if noDefaultParent && q.Role != nil && (q.Role.hasAllowLists() || q.Role.hasDenyLists()) && c07Has(pols, "default") {
+		r.Count("child_of_parent_without_default_carries_default_via_role_lists", 1)
 	}
 	if q.ID != "" {
 		r.Count("created_with_chosen_id_requested", 1)
@@ -948,6 +1010,39 @@ func c07RandPolicies(rng *kit.Rand, parentPols []string, ro *c07Role, ident []st
 	return out
 }
 
+// c07RootShapes: lifetime shapes of root parents of kind rootx (the non-expiring shape is kinds root0 / rootchild).
+var c07RootShapes = []c07ParentSpec{
+	{Kind: "rootx", TTL: "8h"},
+	{Kind: "rootx", Period: "2h"},
+	{Kind: "rootx", Period: "2h", ExplicitMax: "10h"},
+	{Kind: "rootx", ExplicitMax: "10h"},
+	{Kind: "rootx", TTL: "4h", ExplicitMax: "10h"},
+	{Kind: "rootx", TTL: "3h", Period: "2h"},
+	{Kind: "rootx", NumUses: 3},
+	{Kind: "rootx", Period: "30h"}, // period above the mount max
+}
+
+// c07RootShape names the lifetime shape of a root parent from what lookup reported.
+func c07RootShape(p *c07Parent) string {
+	var parts []string
+	if p.NonExpiring {
+		parts = append(parts, "non-expiring")
+	}
+	if p.Period > 0 {
+		parts = append(parts, "period")
+	}
+	if p.ExplicitMax > 0 {
+		parts = append(parts, "explicit-max")
+	}
+	if !p.NonExpiring && p.Period == 0 && p.ExplicitMax == 0 {
+		parts = append(parts, "ttl")
+	}
+	if p.NumUses > 0 {
+		parts = append(parts, "use-limited")
+	}
+	return strings.Join(parts, "+")
+}
+
 var c07AccessSets = [][]string{
 	{"tc"}, {"tc"}, {"tc-plain"},
 	{"tc", "sudo-create"}, {"tc", "sudo-orphan"}, {"tc", "sudo-roles"},
@@ -984,7 +1079,11 @@ func c07RandCase(rng *kit.Rand, w *c07World, n int) (c07ParentSpec, c07Req) {
 	if ps.Default && rng.Chance(1, 2) {
 		ps.Policies = append(ps.Policies, "default")
 	}
-	switch k := rng.Intn(40); {
+	switch k := rng.Intn(43); {
+	case k >= 40:
+		sh := kit.Pick(rng, c07RootShapes)
+		ps.Kind, ps.TTL, ps.Period, ps.ExplicitMax, ps.NumUses = sh.Kind, sh.TTL, sh.Period, sh.ExplicitMax, sh.NumUses
+		ps.NS = ""
 	case k < 2:
 		ps.Kind = "root0"
 		ps.NS = ""
@@ -1104,6 +1203,18 @@ func c07RandCase(rng *kit.Rand, w *c07World, n int) (c07ParentSpec, c07Req) {
 	if rng.Chance(1, 14) {
 		q.EntityAlias = kit.Pick(rng, []string{"web-1", "WEB-2", "svc", "other", "ent-sudo"})
 	}
+	if strings.HasPrefix(ps.Kind, "root") {
+		// root parents: lean towards root children and towards requests that state no lifetime
+		if rng.Chance(1, 2) {
+			q.Policies = [][]string{nil, {"root"}, {"ROOT "}, {"root", "a"}}[rng.Intn(4)]
+		}
+		if rng.Chance(1, 2) {
+			q.TTL, q.Lease, q.Period, q.ExplicitMax = "", "", "", ""
+			if rng.Chance(1, 4) {
+				q.ExplicitMax = "0"
+			}
+		}
+	}
 	return ps, q
 }
 
@@ -1154,6 +1265,21 @@ func c07Requires(r *kit.Result, scale int64) {
 		"parent_lost_identity_policies_after_removal":            50,
 		"entity_inherited_from_parent":                           30,
 		"orphan_of_entity_parent_without_entity":                 15,
+		// parents that do not hold default
+		"parents_without_default": 100, "parents_without_default_naming_default": 20,
+		"refused_unentitled_ask:explicit-default-not-held-by-parent": 10,
+		"child_of_parent_without_default_carries_default_via_sudo":   10,
+		"inherit_from_parent_without_default_gave_no_default":        5,
+		"subset_of_parent_without_default_gave_no_default":           8,
+		// root parents by lifetime shape
+		"root_parents:non-expiring": 80, "root_parents:ttl": 50, "root_parents:period": 20, "root_parents:explicit-max": 10, "root_parents:period+explicit-max": 5,
+		"root_parents:non-expiring+use-limited":                                    5,
+		"refused_unentitled_ask:non-expiring-root-from-expiring-root":              30,
+		"expiring_root_parent_refused_non_expiring_root_child:period":              5,
+		"expiring_root_parent_refused_non_expiring_root_child:ttl":                 10,
+		"expiring_root_parent_refused_non_expiring_root_child:explicit-max":        3,
+		"expiring_root_parent_refused_non_expiring_root_child:period+explicit-max": 3,
+		"non_expiring_root_child_of_parent:non-expiring":                           10,
 	} {
 		r.Require(k, min*scale)
 	}
@@ -1189,7 +1315,7 @@ func TestVerif_C07_Random(t *testing.T) {
 func TestVerif_C07_Lattice(t *testing.T) {
 	seed := kit.Seed(7)
 	shard := c07Shard("lat")
-	r := kit.NewResult(t, "c07-lattice", seed, "full product capability{none, sudo on the called path, sudo only elsewhere, (cross-namespace) sudo only through a same-named policy of the other namespace, root} x namespaces{root, ns1, root->ns1} x endpoint{create, create-orphan, role without lists, role allowed, role allowed+glob, role disallowed, role disallowed glob, role allowed+disallowed, role allowing root, role with token_no_default_policy} x requested policies{none, subset, superset, all of the parent plus one, default, root, root in upper case, response-wrapping (two spellings), glob-matched, role-disallowed} x no_default_policy x parent has default; capability x namespaces x endpoint{create, create-orphan, plain role, orphan role, period role, explicit-max role, default-batch role with explicit max} (with a renewal attempt) x flag{no_parent, period, id, batch type, explicit max, huge ttl, combinations}; entity-bound parents {root, ns1} x binding{login alias, role entity_alias} x capability{none, sudo by token policy, sudo only by entity policy, sudo only by group policy} x endpoint{create, create-orphan, role without lists, role allowed, role allowed+glob, role disallowed, role with allowed_entity_aliases + entity_alias, orphan role} x requested{none, token subset, entity-only policy, group-only policy, mixtures, upper case, all identity-only, all of the parent plus identity-only} x no_default_policy, plus root->ns1 and allow-list+alias roles; batch and use-limited parents x capability x namespaces x endpoints; "+c07Rule0)
+	r := kit.NewResult(t, "c07-lattice", seed, "full product capability{none, sudo on the called path, sudo only elsewhere, (cross-namespace) sudo only through a same-named policy of the other namespace, root} x namespaces{root, ns1, root->ns1} x endpoint{create, create-orphan, role without lists, role allowed, role allowed+glob, role disallowed, role disallowed glob, role allowed+disallowed, role allowing root, role with token_no_default_policy} x requested policies{none, subset, superset, all of the parent plus one, default, subset plus default, default in another spelling, all of the parent plus default, root, root in upper case, response-wrapping (two spellings), glob-matched, role-disallowed} x no_default_policy x parent has default; capability x namespaces x endpoint{create, create-orphan, plain role, orphan role, period role, explicit-max role, default-batch role with explicit max} (with a renewal attempt) x flag{no_parent, period, id, batch type, explicit max, huge ttl, combinations}; entity-bound parents {root, ns1} x binding{login alias, role entity_alias} x capability{none, sudo by token policy, sudo only by entity policy, sudo only by group policy} x endpoint{create, create-orphan, role without lists, role allowed, role allowed+glob, role disallowed, role with allowed_entity_aliases + entity_alias, orphan role} x requested{none, token subset, entity-only policy, group-only policy, mixtures, upper case, all identity-only, all of the parent plus identity-only} x no_default_policy, plus root->ns1 and allow-list+alias roles; root parents of every lifetime shape {initial root, non-expiring child of it, ttl, period, period+explicit max, explicit max only, ttl+explicit max, ttl+period, use-limited, period above the mount max} x endpoint{create, create-orphan, role without lists, role allowing root, orphan role, period role, explicit-max role} x child policies{inherit, root, a} x lifetime stated{nothing, ttl, period, explicit max, explicit max 0, ttl+explicit, no_parent, period+explicit}; batch and use-limited parents x capability x namespaces x endpoints; "+c07Rule0)
 	defer r.Write(t)
 	w := c07Boot(t)
 	rng := kit.NewRand(seed, uint64(shard)+900)
@@ -1266,7 +1392,8 @@ func TestVerif_C07_Lattice(t *testing.T) {
 		"none": nil, "subset": {"a"}, "superset": {"a", "c"}, "default": {"default"}, "root": {"root"},
 		"non-assignable": {"response-wrapping"}, "glob-matched": {"dev-db"}, "role-disallowed": {"b", "ops-x"},
 		"root-upper": {"a", " ROOT"}, "non-assignable-upper": {"Response-Wrapping "},
-		"parent-plus": {"@parent", "default", "c"}, // every policy of the parent, default and one more
+		"parent-plus":    {"@parent", "default", "c"}, // every policy of the parent, default and one more
+		"subset-default": {"a", "default"}, "default-upper": {" Default ", "a"}, "parent-default": {"@parent", "default"},
 	}
 	reqKeys := make([]string, 0, len(requested))
 	for k := range requested {
@@ -1440,6 +1567,59 @@ func TestVerif_C07_Lattice(t *testing.T) {
 			}
 		}
 	}
+	// root parents of every lifetime shape x root (and non-root) children requested with every way of stating a lifetime:
+	// only the non-expiring shapes may yield a root token that never expires; a use-limited root token creates nothing
+	rootParents := append([]c07ParentSpec{{Kind: "root0"}, {Kind: "rootchild"}}, c07RootShapes...)
+	doRoot := func(ps c07ParentSpec, ep string, fill func(q *c07Req)) {
+		n++
+		id := fmt.Sprintf("lat:%d:%d", shard, n)
+		if !kit.WantCase(id) {
+			return
+		}
+		rng = kit.NewRand(seed, uint64(shard)*1_000_000+uint64(n)+900_000_000)
+		q := c07Req{Endpoint: ep}
+		if strings.HasPrefix(ep, "role-") {
+			q.Endpoint = "role"
+			q.Role = roles[ep](fmt.Sprintf("l%d", n))
+		}
+		fill(&q)
+		w.run(r, id, ps, q, true)
+	}
+	for _, rp := range rootParents {
+		for _, ep := range []string{"create", "create-orphan", "role-nolists", "role-allowroot", "role-orphan", "role-period", "role-emax"} {
+			for _, pol := range []string{"inherit", "root", "a"} {
+				for _, lt := range []string{"none", "ttl", "period", "explicit", "explicit0", "ttl+explicit", "no_parent", "period+explicit"} {
+					if pol == "a" && !(lt == "none" || lt == "period") {
+						continue
+					}
+					doRoot(rp, ep, func(q *c07Req) {
+						switch pol {
+						case "root":
+							q.Policies = []string{"root"}
+						case "a":
+							q.Policies = []string{"a"}
+						}
+						switch lt {
+						case "ttl":
+							q.TTL = kit.Pick(rng, []string{"5h", "2000h"})
+						case "period":
+							q.Period = kit.Pick(rng, []string{"30m", "100h"})
+						case "explicit":
+							q.ExplicitMax = kit.Pick(rng, []string{"2h", "1000h"})
+						case "explicit0":
+							q.ExplicitMax = "0"
+						case "ttl+explicit":
+							q.TTL, q.ExplicitMax = "2000h", "2h"
+						case "no_parent":
+							q.NoParent = true
+						case "period+explicit":
+							q.Period, q.ExplicitMax = "30m", "2h"
+						}
+					})
+				}
+			}
+		}
+	}
 	// batch and use-limited parents: nothing at all may be created, whatever the capability
 	for _, special = range []string{"batch", "uses"} {
 		for _, capability := range []string{"none", "sudo"} {
@@ -1459,6 +1639,10 @@ func TestVerif_C07_Lattice(t *testing.T) {
 		"identity_derived_sudo_callers": 300, "created_by_identity_derived_sudo_caller": 200, "identity_only_policy_granted_via_identity_derived_sudo": 100,
 		"identity_only_policy_granted_via_role_allow_lists": 20, "identity_only_policy_request_refused_for_that_alone": 60,
 		"entity_via_role_alias_instead_of_parent_entity": 40, "views_after_identity_policies_removed": 500,
+		"explicit_default_refused_for_that_alone:create": 8, "explicit_default_refused_for_that_alone:create-orphan": 8, "explicit_default_refused_for_that_alone:role": 8,
+		"expiring_root_parent_refused_non_expiring_root_child:period": 40, "expiring_root_parent_refused_non_expiring_root_child:explicit-max": 30,
+		"expiring_root_parent_refused_non_expiring_root_child:period+explicit-max": 15, "expiring_root_parent_refused_non_expiring_root_child:ttl": 20,
+		"expiring_root_child_of_parent:period": 100, "expiring_root_child_of_parent:explicit-max": 60, "non_expiring_root_child_of_parent:non-expiring": 40,
 	} {
 		r.Require(k, min)
 	}
